@@ -10,7 +10,7 @@ from props.c16 import _Desc, _seq_byte
 
 LEVEL = "proof"
 MANIFEST = dict(
-    text="Lean 4 theorems, by induction over every finite history of STATP messages (any number of 4-byte records, repeated positions, the simulator's  Session 4: histories contain partial updates that arrive while a request holds the protocol lock (busy windows): application stays in arrival order and every update is acknowledged. The acknowledging handler and the apply callback of the awaitable client have no suspension point (partial_update_never_suspends over the regenerated skeletons; no_suspension_no_aw: every trace is one atomic block)."
+    text="Lean 4 theorems, by induction over every finite history of STATP messages (any number of 4-byte records, repeated positions, the simulator's  Session 4: histories contain partial updates that arrive while a request holds the protocol lock (busy windows): application stays in arrival order and every update is acknowledged. The acknowledging handler and the apply callback of the awaitable client have no suspension point (partial_update_never_suspends over the regenerated skeletons; no_suspension_no_aw: every trace is one atomic block). Histories with a byte-identical report repeated after a refresh overwrote its positions; partial_update_path_state_inventory."
          "1-byte form) interleaved with refreshes: both clients' block equals the sequential reference (async_equals_reference for ANY stale pending list; "
          "sync_equals_reference with the invariant 'pending list empty between messages'), exactly one STATQ per STATP with a sequence number in 1..191 "
          "(through C16's counter theorems). The model is parameterised by facts re-extracted from the source on every run (record slicing arithmetic, the "
@@ -41,6 +41,17 @@ def gen_history(rng, n):
         p = rng.choice(hot)
         ev.append(("statp", [(p, bytes([rng.randrange(256), rng.randrange(256)])), (p + rng.choice([1, -1]), bytes([rng.randrange(256), rng.randrange(256)])),
                              (p, bytes([rng.randrange(256), rng.randrange(256)]))]))
+    if rng.random() < 0.5:
+        # the spa reports X, a refresh then overwrites the same positions with other bytes (the report of the change back was lost),
+        # and the spa reports X again - BYTE-IDENTICAL to its earlier message: it is a new update and must be applied
+        p = rng.choice(hot)
+        rec = [(p, bytes([rng.randrange(1, 256), rng.randrange(256)]))] + ([(min(1021, p + 2), bytes([rng.randrange(256), 7]))] if rng.random() < 0.5 else [])
+        ev.append(("statp", list(rec)))
+        if rng.random() < 0.5:
+            ev.append(("statp", list(rec)))                  # (an immediate repeat is harmless either way)
+        off = max(0, p - 1)
+        ev.append(("refresh", off, bytes((b ^ 0x3C) for b in bytes(8))[:1024 - off]))
+        ev.append(("statp", list(rec)))
     for _ in range(n):
         r = rng.random()
         if r < 0.62:
